@@ -243,7 +243,10 @@ where
         // await, if they have already been cleaned up
         let (abort_handle, abort_registration) = AbortHandle::new_pair();
         let fut = Abortable::new(inner, abort_registration);
-        on_cleanup(move || abort_handle.abort());
+        on_cleanup({
+            let abort_handle = abort_handle.clone();
+            move || abort_handle.abort()
+        });
 
         // get a unique ID if there's a SuspenseContext
         let id = use_context::<SuspenseContext>().map(|sc| sc.task_id());
@@ -260,15 +263,22 @@ where
                 let value = fut.await;
                 drop(id);
 
+                // the sources the future has read belong to the render effect from now on: a change
+                // that arrives during the tick below must re-run it
+                subscriber.forward();
+
                 // waiting a tick here allows Suspense to remount if necessary, which prevents some
                 // edge cases in which a rebuild can't happen while unmounted because the DOM node
                 // has no parent
                 Executor::tick().await;
+                // the view may have been re-rendered or cleaned up during that tick: a load that
+                // was superseded after it completed must not overwrite what its successor rendered
+                if abort_handle.is_aborted() {
+                    return;
+                }
                 if let Ok(value) = value {
                     Some(value).rebuild(&mut *state.borrow_mut());
                 }
-
-                subscriber.forward();
             }
         });
     }
